@@ -179,6 +179,11 @@ func gen(g *common.Gen) {
 			genFill(r, g)
 			continue
 		}
+		if r.Chance(1, 8) {
+			genQueued(r, g, &seed)
+			genDirect(r, g)
+			continue
+		}
 		var pubs []pub
 		nobj := common.Pick(r, []int{1, 1, 1, 2, 2, 3})
 		names := []string{}
@@ -391,4 +396,70 @@ func genFill(r *common.Rand, g *common.Gen) {
 	g.Op("sput name=/8:67/54:02/8:0000 ver=2 c=aa")
 	g.Op("get name=/8:67 pfx=1")
 	g.Op("get name=/8:67/54:02 pfx=1")
+}
+
+// two concurrent fetches: A (>= 11 segments) fills the 10-Interest window, B's metadata arrives while the
+// window is full so B is queued with nothing sent; then A's pending Interests fail (lost 1+3 times).
+// B must still be served and complete. Variants: one of A's window Interests is answered (control), A is
+// fetched by versioned name, A already fails on segment 0, B's own segments are lossy/reordered.
+func genQueued(r *common.Rand, g *common.Gen, seed *uint64) {
+	a, b := "/8:6f/8:61", "/8:6f/8:62"
+	if r.Chance(1, 3) {
+		a, b = "/8:6f/8:61/8:78", "/8:6f/8:61"
+	}
+	sizeA := common.Pick(r, []int{80001, 88000, 88005, 96001, 100000, 160001})
+	sizeB := common.Pick(r, []int{1, 8000, 8001, 16077, 24000})
+	verA := common.Pick(r, []string{"1", "5", "0", "256"})
+	g.Op("produce name=%s ver=%s size=%d seed=%d split=%d cap=0", a, verA, sizeA, *seed, sizeA)
+	*seed++
+	g.Op("produce name=%s ver=3 size=%d seed=%d split=%d cap=%d", b, sizeB, *seed, sizeB, common.Pick(r, []int{0, 3}))
+	*seed++
+	loss := func() string {
+		return strings.Join([]string{common.Pick(r, []string{"i", "x"}), common.Pick(r, []string{"i", "x"}), common.Pick(r, []string{"i", "x"}), common.Pick(r, []string{"i", "x"})}, ".")
+	}
+	nameA := a
+	var sa []string
+	variant := r.Intn(8)
+	answered := -1
+	switch {
+	case variant < 4:
+		g.Stat("queued-behind-full-window-then-failure")
+	case variant < 5:
+		g.Stat("queued-behind-full-window-one-answered")
+		answered = r.Range(1, 10)
+	case variant < 7:
+		g.Stat("queued-behind-full-window-versioned-name")
+		nameA = a + "/" + compText(enc.NewVersionComponent(common.Atou(verA)))
+	default:
+		g.Stat("queued-first-segment-fails")
+		sa = append(sa, "0:"+loss())
+	}
+	if variant < 7 {
+		if r.Chance(1, 3) {
+			sa = append(sa, "0:d"+strconv.Itoa(r.Range(1, 40)))
+		}
+		for k := 1; k <= 10; k++ {
+			if k == answered {
+				sa = append(sa, strconv.Itoa(k)+":"+common.Pick(r, []string{"d", "i.d", "d500"}))
+			} else {
+				sa = append(sa, strconv.Itoa(k)+":"+loss())
+			}
+		}
+	}
+	// B's metadata arrives after A's window is full (A: metadata 10 ms + segment 0 <= 40 ms)
+	sb := []string{"m:" + common.Pick(r, []string{"d100", "d300", "d900", "x.d100", "i.i.d50"})}
+	for k := 0; k < (sizeB-1)/8000+1; k++ {
+		if r.Chance(1, 3) {
+			sb = append(sb, strconv.Itoa(k)+":"+common.Pick(r, []string{"i.d", "d400", "x.x.d", "i.x.i.d20"}))
+		}
+	}
+	capx := common.Pick(r, []int{0, 0, 2})
+	if r.Chance(1, 2) {
+		g.Op("consume name=%s script=%s name2=%s script2=%s cap=%d", nameA, strings.Join(sa, ";"), b, strings.Join(sb, ";"), capx)
+	} else {
+		g.Op("consume name=%s script=%s name2=%s script2=%s cap=%d", b, strings.Join(sb, ";"), nameA, strings.Join(sa, ";"), capx)
+	}
+	g.Stat("consume-concurrent")
+	g.Op("get name=%s pfx=1", b)
+	g.Op("consume name=%s script=- cap=0", b)
 }
